@@ -20,5 +20,8 @@ pub use self::amz_date::*;
 mod post_signature;
 pub use self::post_signature::*;
 
+mod post_policy;
+pub use self::post_policy::*;
+
 mod methods;
 pub use self::methods::*;
